@@ -15,6 +15,8 @@ use world::{ConnId, DiskOp, Ev};
 #[derive(Default)]
 pub struct Verified {
     pub set: BTreeSet<usize>,
+    /// piece file name suffix -> piece indices with that hash (computed once)
+    names: BTreeMap<String, Vec<usize>>,
 }
 
 impl Verified {
@@ -38,10 +40,16 @@ impl Verified {
     pub fn on_event(&mut self, v: &View, ev: &Ev) {
         if let Ev::Disk { op: DiskOp::Write, path, ok: true, data, .. } = ev {
             let t = &v.out.torrent;
-            let h = sha1(data);
-            for i in 0..t.pieces() {
-                if path.ends_with(&format!("/{}.piece", hex_upper(&t.piece_hashes[i]))) {
-                    // the file now holds `data`, whatever it held before
+            if self.names.is_empty() {
+                for i in 0..t.pieces() {
+                    self.names.entry(format!("{}.piece", hex_upper(&t.piece_hashes[i]))).or_default().push(i);
+                }
+            }
+            let file = path.rsplit('/').next().unwrap_or("");
+            if let Some(idx) = self.names.get(file) {
+                // the file now holds `data`, whatever it held before
+                let h = sha1(data);
+                for i in idx.clone() {
                     if t.piece_hashes[i] == h {
                         self.set.insert(i);
                     } else {
